@@ -2,8 +2,8 @@
    This file holds nothing but the property theorems (closed by `exact`) and Print Assumptions.
    Model: Sched/Model.v (scheduler.go:98-259, node.go).  Proofs: Sched/Proofs.v (invariant), Sched/ProofsTerm.v
    (measure, progress).  Tie to the code: tools/props/C15.py (trace validation of the real scheduler).
-   Premises of every theorem: donech c = true (Schedule is given a done channel, as the agent always does) and
-   norepeat c (no repeatPolicy step; those belong to C05). *)
+   Premise of every theorem: norepeat c (no repeatPolicy step; those belong to C05).  Since fix f9e55a3 the theorems hold
+   whether or not Schedule is given a done channel. *)
 From Coq Require Import List.
 Import ListNotations.
 From BD.Sched Require Import Model Proofs ProofsFinal ProofsTerm Replay ReplayProofs ProofsTrace Examples.
@@ -12,7 +12,7 @@ From BD.Sched Require Import Model Proofs ProofsFinal ProofsTerm Replay ReplayPr
    every execution, whatever the DAG, the outcomes and the interleaving - at most k nodes are in state running
    (the quantity the code counts), at most k workers are between launch and the end of their retry interval,
    at most k are executing or waiting out a retry interval, and at most k commands are executing. *)
-Theorem C15_bound : forall c : cfg, donech c = true -> norepeat c ->
+Theorem C15_bound : forall c : cfg, norepeat c ->
   forall s, Reach c s -> maxActive c > 0 ->
     running_count c s <= maxActive c /\ active_count c s <= maxActive c /\
     retrywait_count c s <= maxActive c /\ exec_count c s <= maxActive c.
@@ -21,13 +21,13 @@ Print Assumptions C15_bound.
 
 (* ... hence on the VISIBLE trace (entries/exits of the executor's Run) of every execution the number of open Run calls
    never exceeds k: mon_open is the untimed part of the monitor the check evaluates on the real scheduler's traces. *)
-Theorem C15_on_every_trace : forall c : cfg, donech c = true -> norepeat c ->
+Theorem C15_on_every_trace : forall c : cfg, norepeat c ->
   forall ls s, maxActive c > 0 -> run c (init c) ls = Some s -> mon_open (maxActive c) [] (vis ls) = true.
 Proof. exact mon_open_holds. Qed.
 Print Assumptions C15_on_every_trace.
 
 (* a step waiting out its retry interval keeps status running, i.e. occupies a slot (unless the run was stopped) *)
-Theorem C15_retrywait_is_running : forall c : cfg, donech c = true -> norepeat c ->
+Theorem C15_retrywait_is_running : forall c : cfg, norepeat c ->
   forall s i, Reach c s -> canceled s = false -> ph (nd s i) = PRetryWait -> st (nd s i) = NRunning.
 Proof. exact retrywait_is_running. Qed.
 Print Assumptions C15_retrywait_is_running.
@@ -43,12 +43,12 @@ Print Assumptions C15_unbounded.
    relation is well-founded (what NewExecutionGraph guarantees, C14):
    (1) every label strictly decreases an explicit measure, so EVERY execution is finite, with the bound
        sum_i (12 * retryLimit_i + 9) + 8 + (n+1) * (number of Signal calls) + 1; *)
-Theorem C15_all_executions_finite : forall c : cfg, donech c = true -> norepeat c ->
+Theorem C15_all_executions_finite : forall c : cfg, norepeat c ->
   forall ls s, run c (init c) ls = Some s -> length ls <= bound c.
 Proof. exact all_executions_finite. Qed.
 Print Assumptions C15_all_executions_finite.
 
-Theorem C15_measure_decreases : forall c : cfg, donech c = true -> norepeat c ->
+Theorem C15_measure_decreases : forall c : cfg, norepeat c ->
   forall s l s', Inv c s -> step c s l = Some s' -> measure c s' < measure c s.
 Proof. exact step_measure. Qed.
 Print Assumptions C15_measure_decreases.
@@ -56,7 +56,7 @@ Print Assumptions C15_measure_decreases.
 (* (2) progress: in every reachable state other than Done the scheduler itself has an enabled step, unless a command
        or a handler is executing (then the environment's "command ends" is enabled) - the capacity test never
        deadlocks the loop: it refuses a launch only while some node is running, and a running node has a live worker; *)
-Theorem C15_progress : forall c : cfg, donech c = true -> norepeat c ->
+Theorem C15_progress : forall c : cfg, norepeat c ->
   forall s, Reach c s -> wf_deps c -> pc s <> LDone ->
   (exists l s', internal l = true /\ step c s l = Some s') \/
   (exists i, i < nsteps c /\ ph (nd s i) = PExec) \/ (exists h t, pc s = LHandlers (h :: t) true).
@@ -64,7 +64,7 @@ Proof. exact progress. Qed.
 Print Assumptions C15_progress.
 
 (* (3) hence from every reachable state the run can be driven to Done, and by (1) every maximal execution ends there. *)
-Theorem C15_can_complete : forall c : cfg, donech c = true -> norepeat c ->
+Theorem C15_can_complete : forall c : cfg, norepeat c ->
   forall s, Reach c s -> wf_deps c -> exists ls s', run c s ls = Some s' /\ pc s' = LDone.
 Proof. exact can_complete. Qed.
 Print Assumptions C15_can_complete.
@@ -86,10 +86,11 @@ Example C15_nonvacuous_termination :
      length diamond_full <= bound diamond.
 Proof. exact (conj diamond_wf diamond_done). Qed.
 
-(* Why the premise donech = true: with done == nil the faithful model runs two commands with maxActiveRuns = 1. *)
-Theorem C15_without_done_channel_refuted :
+(* History (fixed by f9e55a3): with done == nil two commands could run with maxActiveRuns = 1 (the stale worker of a
+   retried step flipped the running attempt to finished, so the capacity count missed it).  Repaired: *)
+Example C15_done_nil_flip_repaired :
   exists s, run flip_cfg (init flip_cfg) flip_exec = Some s /\
             norepeat flip_cfg /\ donech flip_cfg = false /\ maxActive flip_cfg = 1 /\
-            In 0 (deps (steps flip_cfg 1)) /\ ph (nd s 0) = PExec /\ ph (nd s 1) = PExec.
-Proof. exact stale_flip_refuted. Qed.
-Print Assumptions C15_without_done_channel_refuted.
+            In 0 (deps (steps flip_cfg 1)) /\ ph (nd s 0) = PExec /\ st (nd s 0) = NRunning /\
+            step flip_cfg s (LCommit 1) = None.
+Proof. exact stale_flip_repaired. Qed.
